@@ -54,6 +54,26 @@ func c17Destinations() []string {
 			add(p + b)
 		}
 	}
+	// tails that make a URL re-serialise differently from how it was supplied
+	// (characters that are not valid in an encoded path, broken escapes): any
+	// normalisation between the filter and the redirect shows up here
+	var short []string
+	short = append(short, "")
+	for _, a := range c17Alphabet {
+		short = append(short, a)
+		for _, b := range c17Alphabet {
+			short = append(short, a+b)
+		}
+	}
+	short = append(short, "/%2F", "/%2f/", "/%5C", "/%2F%2F", "/%2e%2e/", "/%09/")
+	for _, p := range short {
+		for _, b := range c17Bodies {
+			for _, tail := range []string{" ", "^", "\"", "<", "{", "|", "%", "%zz", "%20", "`"} {
+				add(p + b + "/" + tail)
+				add(p + b + tail)
+			}
+		}
+	}
 	// ordinary destinations (liveness)
 	for _, s := range c17Good() {
 		add(s)
@@ -273,7 +293,7 @@ func init() {
 	vfRegister(&vfeng.Check{
 		ID:    "C17",
 		Level: "model_checking",
-		Rule:  "exhaustive destination grammar (every prefix of length <=3 over 14 symbols, every C0 control at positions 0-2, scheme-like prefixes) x 4 bodies x every driven redirect site (login form/query/GET, TOTP, bootstrap OTP, VIP OTP, federated callback) on the real handlers' success paths; Location (as net/http puts it on the wire; conformance-checked through a real http.Server) resolved with WHATWG rules must stay on keymasterd's origin; class = (site, outcome, destination class)",
+		Rule:  "exhaustive destination grammar (every prefix of length <=3 over 14 symbols, every C0 control at positions 0-2, scheme-like prefixes) x 4 bodies, plus every prefix of length <=2 x 4 bodies x 10 tails that force URL re-serialisation (invalid path characters, broken escapes) x every driven redirect site (login form/query/GET, TOTP, bootstrap OTP, VIP OTP, federated callback) on the real handlers' success paths; Location (as net/http puts it on the wire; conformance-checked through a real http.Server) resolved with WHATWG rules must stay on keymasterd's origin; class = (site, outcome, destination class)",
 		Assumptions: []string{"browser URL resolution is modelled by the WHATWG subset in whatwg.go", "net/http's header sanitisation (CR/LF to space, trim) is applied to recorder output and validated against a real http.Server on loopback for a sample of points and for every violation"},
 		Bounds: func(tier string) map[string]interface{} {
 			return map[string]interface{}{"destinations": len(c17Destinations()), "sites": len(c17Sites())}
